@@ -46,6 +46,15 @@ def audit_text_laws(seed=0, tier="quick"):
     for s in strs:
         r = s.rstrip()
         ck("splitlines-empty-iff-empty", (len(s.splitlines()) == 0) == (s == ""), s)
+        try:
+            _u = binascii.unhexlify(s)
+        except (ValueError, binascii.Error):
+            _u = None
+        if _u is not None:
+            try:
+                ck("fromhex-extends-unhexlify", bytes.fromhex(s) == _u, s)
+            except ValueError:
+                ck("fromhex-extends-unhexlify", False, s)
         ck("rstrip-prefix", s.startswith(r), s)
         ck("rstrip-idempotent", r.rstrip() == r, s)
         ck("rstrip-newline", (s + "\n").rstrip() == r, s)
